@@ -17,6 +17,7 @@ import (
 	"seehuhn.de/go/pdf"
 	"seehuhn.de/go/pdf/font/charcode"
 	"seehuhn.de/go/pdf/font/cmap"
+	"seehuhn.de/go/pdf/graphics/extract"
 	"seehuhn.de/go/pdf/page"
 	"seehuhn.de/go/pdf/pagetree"
 	"seehuhn.de/go/pdf/reader"
@@ -47,6 +48,10 @@ import (
 //	growth newcodec n     page walk (font extraction, cmap.File.Codec) of a Type 0 font whose embedded
 //	                      CMap has n pairwise disjoint 4-byte code space ranges (grid shape)
 //	growth codespacerange k  Codec.CodeSpaceRange() of the codec extracted from such a font (1+3k ranges; k, k+1)
+//	growth w-<shape> n, w2-<shape> n   extract.Dict + page walk of a Type 0 font whose descendant has a /W resp.
+//	                      /W2 array of n groups; shapes fwd (maximal forward ranges), rev (reversed ranges),
+//	                      alt (reversed + maximal forward, alternating), ovl (overlapping ranges), list
+//	                      (list form, 200 elements each); ratio rule and CPU <= 250 ms + 5 us per byte
 //	growth equivalent n   CodeSpaceRange.Equivalent(codec.CodeSpaceRange()) for n diagonal ranges
 
 func c05eFile(objs []string) []byte {
@@ -98,7 +103,50 @@ func c05eRanges(variant string, n int) charcode.CodeSpaceRange {
 	return csr
 }
 
+// c05eCIDMetrics: the /W (vertical = false) or /W2 array of n groups.
+func c05eCIDMetrics(shape string, vertical bool, n int) string {
+	var b strings.Builder
+	val := "500"
+	if vertical {
+		val = "-1000 500 880"
+	}
+	rng := func(c1, c2 int) { fmt.Fprintf(&b, "%d %d %s\n", c1, c2, val) }
+	b.WriteString("[")
+	for i := 0; i < n; i++ {
+		switch shape {
+		case "fwd":
+			rng(0, 65535)
+		case "rev":
+			rng(65535-i%100, 1+i%100)
+		case "alt":
+			rng(65535, 1)
+			rng(0, 65535)
+		case "ovl":
+			rng(i%1000, i%1000+3000)
+		default: // "list"
+			fmt.Fprintf(&b, "%d [", (i*200)%65000)
+			for j := 0; j < 200; j++ {
+				b.WriteString(val + " ")
+			}
+			b.WriteString("]\n")
+		}
+	}
+	b.WriteString("]")
+	return b.String()
+}
+
 func c05eInput(variant string, n int) []byte {
+	if key, shape, ok := strings.Cut(variant, "-"); ok && (key == "w" || key == "w2") {
+		content := "BT /F1 10 Tf <0041> Tj ET"
+		return c05eFile([]string{"<< /Type /Catalog /Pages 2 0 R >>", "<< /Type /Pages /Kids [3 0 R] /Count 1 >>",
+			"<< /Type /Page /Parent 2 0 R /MediaBox [0 0 100 100] /Contents 8 0 R /Resources << /Font << /F1 4 0 R >> >> >>",
+			"<< /Type /Font /Subtype /Type0 /BaseFont /Verif /Encoding /Identity-V /DescendantFonts [6 0 R] >>",
+			"null",
+			"<< /Type /Font /Subtype /CIDFontType2 /BaseFont /Verif /CIDSystemInfo << /Registry (Adobe) /Ordering (Identity) /Supplement 0 >> /FontDescriptor 7 0 R /DW 1000 /" + strings.ToUpper(key) + " 9 0 R >>",
+			"<< /Type /FontDescriptor /FontName /Verif /Flags 4 /FontBBox [0 0 1000 1000] /ItalicAngle 0 /Ascent 800 /Descent -200 /CapHeight 700 /StemV 80 >>",
+			fmt.Sprintf("<< /Length %d >>\nstream\n%s\nendstream", len(content), content),
+			c05eCIDMetrics(shape, key == "w2", n)})
+	}
 	switch variant {
 	case "newcodec", "codespacerange", "equivalent":
 		csr := c05eRanges(variant, n)
@@ -398,6 +446,13 @@ func c05eWork(variant string, data []byte) (cpu time.Duration, heap uint64, note
 			}
 			keep = rr
 		}
+		if strings.HasPrefix(variant, "w-") || strings.HasPrefix(variant, "w2-") {
+			// (the page walk has met the font through the resources; the dictionary form once more)
+			d, err2 := pdf.Decode(pdf.CursorAt(pdf.NewExtractor(r), nil), pdf.NewReference(4, 0), extract.Dict)
+			keep = []any{keep, d}
+			note = fmt.Sprintf("walk=%v,dict=", err)
+			err = err2
+		}
 		if err == nil && (variant == "newcodec" || variant == "codespacerange" || variant == "equivalent") {
 			// the codec of the CMap the walk has extracted (for the two direct variants only the
 			// call named by the variant is timed)
@@ -594,6 +649,16 @@ func c05eCases(thorough bool) []string {
 		fmt.Sprintf("growth clip %d", 1000*min(mul, 2)),
 		"growth qdepth 400000",
 	}
+	// /W and /W2 arrays of a CIDFont (entry budget of graphics/extract)
+	for _, key := range []string{"w", "w2"} {
+		for _, shape := range []string{"fwd", "rev", "alt", "ovl", "list"} {
+			n := 1000 * mul
+			if shape == "list" {
+				n = 150 * mul
+			}
+			cs = append(cs, fmt.Sprintf("growth %s-%s %d", key, shape, n))
+		}
+	}
 	// C12 audit, findings 1-3 (valid code space range sets; not repaired, known)
 	if thorough {
 		cs = append(cs, "growth newcodec 75", "growth codespacerange 3", "growth equivalent 15")
@@ -655,6 +720,14 @@ func c05eJudge(desc string) (ok bool, key, detail string) {
 		r1, r2 := float64(v["rd1"])/float64(max(v["len1"], 1)), float64(v["rd2"])/float64(max(v["len2"], 1))
 		if (v["rd2"] > 3*max(v["rd1"], 1) && v["rd2"] > 8*v["len2"]) || (f[1] == "seqdup" && v["rd2"] > 10*v["len2"]) {
 			return false, "C05-superlinear-reads-" + f[1], fmt.Sprintf("%q: the library asked its ReaderAt for %d bytes of a file of %d bytes (%.1f x the file) and for %d bytes of a file of %d bytes (%.1f x)", desc, v["rd1"], v["len1"], r1, v["rd2"], v["len2"], r2)
+		}
+	}
+	if strings.HasPrefix(f[1], "w-") || strings.HasPrefix(f[1], "w2-") {
+		// a /W or /W2 array is decoded (or refused: more than 65536 entries) in time proportional to
+		// its length; the cap is generous for that and far below what a refundable entry budget costs
+		// (n x 65534 map stores for n alternating reversed and maximal forward ranges)
+		if limit := 250 + v["len2"]/200; v["cpu2"] > limit {
+			return false, "C05-time-not-proportional-" + f[1], fmt.Sprintf("%q: decoding the font took %d ms of CPU time for a file of %d bytes (%d ms for %d bytes); cap 250 ms + 5 us per byte = %d ms", desc, v["cpu2"], v["len2"], v["cpu1"], v["len1"], limit)
 		}
 	}
 	if v["cpu2"] > 400 && v["cpu2"] > 3*max(v["cpu1"], 1) {
